@@ -95,6 +95,9 @@ type C16Req struct {
 	Members  int       `json:"members"`  // gzip members (RFC 1952 allows several)
 	Damage   string    `json:"damage"`   // "", trunc_header, trunc_stream, trunc_trailer, bitflip, garbage, syntax
 	DamagePM int       `json:"damage_pm"`
+	// Lvl: compression level + 3 the client used (0: the default level); every level is a
+	// valid stream, the zlib header differs (78 01 / 78 5e / 78 9c / 78 da)
+	Lvl int `json:"lvl,omitempty"`
 }
 
 // C16Case is a history under one provider.
@@ -229,6 +232,7 @@ func genC16(t *rapid.T) C16Case {
 		r.CTForm = rapid.IntRange(0, 3).Draw(t, "ctform")
 		r.Encoding = rapid.SampledFrom([]string{"", "gzip", "gzip", "deflate"}).Draw(t, "encoding")
 		r.Members = rapid.SampledFrom([]int{1, 1, 1, 2, 3}).Draw(t, "members")
+		r.Lvl = rapid.SampledFrom([]int{0, 0, 0, 1, 3, 4, 5, 6, 8, 9, 12}).Draw(t, "level")
 		if rapid.IntRange(0, 9).Draw(t, "damaged") < 4 {
 			if r.Encoding == "" {
 				r.Damage = rapid.SampledFrom([]string{"syntax", "garbage"}).Draw(t, "damage")
@@ -242,7 +246,11 @@ func genC16(t *rapid.T) C16Case {
 	return c
 }
 
-func compressBody(enc string, plain []byte, members int) []byte {
+func compressBody(enc string, plain []byte, members int, lvl ...int) []byte {
+	level := -1
+	if len(lvl) > 0 && lvl[0] > 0 {
+		level = lvl[0] - 3
+	}
 	var buf bytes.Buffer
 	switch enc {
 	case "gzip":
@@ -258,12 +266,12 @@ func compressBody(enc string, plain []byte, members int) []byte {
 			if hi > len(plain) {
 				hi = len(plain)
 			}
-			w := gzip.NewWriter(&buf)
+			w, _ := gzip.NewWriterLevel(&buf, level)
 			w.Write(plain[lo:hi])
 			w.Close()
 		}
 	case "deflate":
-		w := zlib.NewWriter(&buf)
+		w, _ := zlib.NewWriterLevel(&buf, level)
 		w.Write(plain)
 		w.Close()
 	default:
@@ -317,7 +325,7 @@ func damageBody(r C16Req, plain, wire []byte) ([]byte, bool) {
 	case "syntax":
 		// break the document itself before compressing: cut it short
 		cut := pm(len(plain))
-		return compressBody(r.Encoding, plain[:cut], r.Members), false // cutting only a trailing newline leaves a complete document
+		return compressBody(r.Encoding, plain[:cut], r.Members, r.Lvl), false // cutting only a trailing newline leaves a complete document
 	}
 	return wire, false
 }
@@ -379,7 +387,7 @@ func checkC16(c C16Case) (vs []*Violation) {
 		}
 		plain := wo.Body
 		// 2. read it back
-		wire := compressBody(r.Encoding, plain, r.Members)
+		wire := compressBody(r.Encoding, plain, r.Members, r.Lvl)
 		mustFail := false
 		if r.Damage != "" {
 			wire, mustFail = damageBody(r, plain, wire)
@@ -440,7 +448,7 @@ func checkC16(c C16Case) (vs []*Violation) {
 			labels = append(labels, "damage_"+r.Damage)
 			if last.err == nil {
 				if mustFail {
-					vs = append(vs, viol("", "%s: the body is broken (%d of %d wire bytes) but ReadEntity returned no error", where, len(wire), len(compressBody(r.Encoding, plain, r.Members))))
+					vs = append(vs, viol("", "%s: the body is broken (%d of %d wire bytes) but ReadEntity returned no error", where, len(wire), len(compressBody(r.Encoding, plain, r.Members, r.Lvl))))
 				} else if !equal {
 					sig := ""
 					if r.Damage == "bitflip" {
